@@ -546,9 +546,40 @@ func genSynth(r *Rng, cns int64, steps int, adv bool) Sx {
 	return L(I(cns), I(int64(ethdb.IdealBatchSize)), w, s.ops, e)
 }
 
+// genLeak is the witness of C21_deref_collects_refuted: an account node P (external child S)
+// is committed, resubmitted while S is only on disk, then S is resubmitted (now counted from
+// the older P), Cap flushes P alone, and both references to P are removed: S stays cached
+// with parents = 1 and no referrer (it is on disk, so nothing is lost; it is never collected).
+func genLeak(cns int64) Sx {
+	s := &synth{u: newUniverse(), refd: map[int]int{}}
+	mk := func(salt byte, n int) int {
+		var slots [17][]byte
+		slots[16] = bytes.Repeat([]byte{salt}, n)
+		blob, _ := rlp.EncodeToBytes(slots[:])
+		id := s.u.add(blob)
+		s.kids = append(s.kids, nil)
+		s.ext = append(s.ext, nil)
+		return id
+	}
+	S, P := mk(1, 10), mk(2, 20)
+	s.ext[P-1] = []int{S}
+	r := NewRng(1)
+	s.update(r, []int{S, P}, false)
+	s.ops = append(s.ops, L(I(1), I(int64(P)), I(0)), L(I(4), I(int64(P))))
+	s.update(r, []int{P}, false)
+	s.ops = append(s.ops, L(I(1), I(int64(P)), I(0)))
+	s.update(r, []int{S, P}, false)
+	pc := int64(32+len(s.u.blob[P-1])) + cns + 32
+	sc := int64(32+len(s.u.blob[S-1])) + cns
+	s.ops = append(s.ops, L(I(3), I(sc+pc/2)), L(I(2), I(int64(P))), L(I(2), I(int64(P))))
+	w, e := s.u.world()
+	return L(I(cns), I(int64(ethdb.IdealBatchSize)), w, s.ops, e)
+}
+
 func gen(r *Rng, tier string, emit func(Sx)) {
 	r = NewRng(r.U64())
 	cns := int64(hashdb.VerifC21CachedNodeSize())
+	emit(genLeak(cns))
 	nChain, nSynth, nAdv, nBig := 220, 150, 120, 1
 	if tier == "thorough" {
 		nChain, nSynth, nAdv, nBig = 6000, 4000, 3000, 12
